@@ -194,10 +194,35 @@ def gen_facts(ctx):
     return o
 
 
+C01_PIPE_VO = ("Pipe.vo", "PipeProofs.vo", "PipeStrand.vo")
+
+
+def ensure_c01_pipe(ctx):
+    """coq/C02/PipeBridge.v and PropertiesPipeBridge.v import the pipe model and its theorems from coq/C01 (-Q ../C01 C01).
+    Normally those .vo exist (bin/setup, bin/vcheck C01); only when one is MISSING are exactly these three targets built,
+    from their hand-written sources (they depend on coq/Common only — C01's generated gen/*.v are never touched from here)."""
+    d = os.path.join(ctx.verif, "coq", "C01")
+    missing = [f for f in C01_PIPE_VO if not os.path.exists(os.path.join(d, f))]
+    if not missing:
+        return True
+    ctx.log("coq/C01: %s missing, building the pipe model files needed by the bridge" % ", ".join(missing))
+    ctx.coq_common()
+    if not os.path.exists(os.path.join(d, "Makefile.coq")):
+        vlib.sh(["coq_makefile", "-f", "_CoqProject", "-o", "Makefile.coq"], cwd=d, timeout=120)
+    rc, out = vlib.sh(["make", "-f", "Makefile.coq", "-j2"] + list(C01_PIPE_VO), cwd=d, timeout=900)
+    if rc != 0:
+        ctx.log("building coq/C01 pipe files failed:\n" + out[-1500:])
+        ctx.broken.append("coq/C01 pipe model (Pipe.v, PipeProofs.v, PipeStrand.v) did not build: the bridge theorems of PropertiesPipeBridge.v cannot be checked")
+    return rc == 0
+
+
 def run(ctx):
     facts = gen_facts(ctx)
-    res = ctx.coq_check(("Properties.v", "PropertiesSrc.v"))
-    src_broken = [n for n, v in res.items() if not v]
+    ensure_c01_pipe(ctx)
+    res = ctx.coq_check(("Properties.v", "PropertiesSrc.v", "PropertiesPipeBridge.v"))
+    bridge_thms = vlib.theorem_names(open(os.path.join(ctx.coqdir, "PropertiesPipeBridge.v")).read())
+    ctx.cov["pipe_bridge_theorems"] = {n: bool(res.get(n)) for n in bridge_thms}
+    src_broken = [n for n, v in res.items() if not v and n not in bridge_thms]
     model = ctx.extract() if facts else None
     model_says = {}
     if model:
@@ -580,15 +605,27 @@ def run(ctx):
         "interleaving semantics: std::atomic<bool> operations are single sequentially consistent steps; wait() returns only "
         "when the task's program has ended (task_group::wait / thread::join / WaitforTask)",
         "harness/C02/harness.cpp (g++ -O1, ASan+UBSan), its live-set instrumentation and the oracles in props/C02/check.py",
-        "the enkiTS LockLessMultiReadPipe is NOT modelled beyond its contract (a write fails when full -> piece run inline by the writer; "
-        "a stored piece is handed to exactly one reader; theorem schedule_internal_burst_exactly_once): the 'parkburst' scenario "
-        "(T in {2,4} threads, all T-1 workers parked, bursts of 300 and 1000 > 256 pending schedule() calls from one thread) is what "
-        "exercises that contract on the real pipe; that each reader-side claim is ONE AtomicCompareAndSwap is read off the AST "
-        "(pipe_claims_atomic_src) and exercised by the 'ownerthief' scenario",
+        "the enkiTS LockLessMultiReadPipe: in C02's scheduler model (Sched.v) it is a bounded bag (a write fails when full -> piece run inline "
+        "by the writer; a stored piece is handed to exactly one reader; theorem schedule_internal_burst_exactly_once, contract as a Section "
+        "hypothesis in functional form).  That contract is PROVED of the pipe's own micro-step model (coq/C01/Pipe.v, all interleavings) in "
+        "relational form by PropertiesPipeBridge.v: pipe_contract_proved / burst_exactly_once_on_pipe / one_piece_delivered_once / "
+        "pipe_no_overwrite / pipe_progress (via coq/C02/PipeBridge.v from C01's pipe_handoff_multiset, pipe_writer_never_overwrites and the "
+        "no-wrap progress theorem).  The pipe model itself is tied to the source and the real template by the C01 check (instruction tables from "
+        "the clang AST, sequential differential, stress); here the 'parkburst' scenario (T in {2,4} threads, all T-1 workers parked, bursts of "
+        "300 and 1000 > 256 pending schedule() calls from one thread) exercises the contract on the real pipe through the scheduler, and that "
+        "each reader-side claim is ONE AtomicCompareAndSwap is read off the AST (pipe_claims_atomic_src) and exercised by 'ownerthief'",
     ]
     ctx.assumptions += [
         "ORACLES (contract stated as Section hypotheses, measured by the harness): tbb::task_arena::enqueue, tbb::task_group, "
-        "detached std::thread, std::packaged_task/std::future, the enkiTS LockLessMultiReadPipe (each written piece popped exactly once)",
+        "detached std::thread, std::packaged_task/std::future",
+        "pipe contract: the Section hypothesis `forall w, Permutation (popped w) w` of ProofsSched.v stays for the FUNCTIONAL statements "
+        "(schedule_once_internal, schedule_internal_burst_exactly_once); its proved instance is RELATIONAL (PropertiesPipeBridge.v: every reachable, "
+        "quiescent, drained state of the pipe model has delivered ~ written).  Two gaps are stated, not closed: (1) the functional form needs, for "
+        "every written list, a constructed drained run — pipe_progress gives one solo read at a time (no index wrap), the iteration to an empty "
+        "pipe is not proved; (2) Sched.pipe_write refuses iff the bag is full, the real writer refuses whenever the slot at m_WriteIndex is not "
+        "FLAG_CAN_WRITE, which can happen below capacity while a reader still copies that slot (add_task_set takes the refusal pattern as a free "
+        "parameter and a refused piece runs inline, so exactly-once does not depend on it; the exact 'iff full' holds only for a burst with no "
+        "concurrent reader and is measured by 'parkburst', not proved).  The pipe theorems assume sequentially consistent memory (see C01)",
         "the wake-up handshake is modelled as a 2-thread store-buffer litmus (x86-TSO, one buffer slot per thread); that AtomicAdd is a full "
         "barrier and that the fences found in WakeThreads / WaitForTasks are the ones on the publish-then-check paths is read off the AST",
         "'eventually' needs a fair OS scheduler and, on the internal backend, at least one worker thread (1-thread case: known finding)",
@@ -596,4 +633,4 @@ def run(ctx):
         "the harness 'nested' scenario exercises it on the real code",
     ]
     if ctx.thorough():
-        ctx.coq_thorough_chk(["C02.Properties", "C02.PropertiesSrc"])
+        ctx.coq_thorough_chk(["C02.Properties", "C02.PropertiesSrc", "C02.PropertiesPipeBridge"])
